@@ -28,9 +28,9 @@ func init() {
 	calls["matchesDateZone"] = func(a []string, n []int) interface{} {
 		return message.VerifMatchesDateZone(n[0], n[1], n[2], n[3], n[4], n[5], a[0], a[1])
 	}
-	// n = [seq, uid, y, m, d, hh, mi, offsetSeconds], a = [flags, criteria]
+	// n = [seq, uid, y, m, d, hh, mi, offsetSeconds, maxSeq, maxUID], a = [flags, criteria]
 	calls["evalCriteriaZone"] = func(a []string, n []int) interface{} {
-		return message.VerifEvalTokensZone(n[0], int64(n[1]), a[0], n[2], n[3], n[4], n[5], n[6], n[7], message.VerifParseSearchTokens(a[1]))
+		return message.VerifEvalTokensZone(n[0], int64(n[1]), n[8], int64(n[9]), a[0], n[2], n[3], n[4], n[5], n[6], n[7], message.VerifParseSearchTokens(a[1]))
 	}
 	// listing with shared stored messages: a = criteria :: one flag string per entry,
 	// n = per entry (message id, uid, y, m, d); sequence numbers are the positions
